@@ -154,8 +154,17 @@ class Gen:
                                    2 ** (8 * j - 1) if j else 3, -2 ** (8 * j - 1) - 1 if j else -3, -2 ** (8 * j - 1) if j else 5,
                                    r.randint(-10 ** 12, 10 ** 12)]))
         if k == 'bits':
-            n = r.choice([0, 1, 7, 8, 9, 15, 16, 17, r.randint(0, 40)])
-            return ('bits', tuple(r.randint(0, 1) for _ in range(n)))
+            n = r.choice([0, 1, 7, 8, 9, 15, 16, 17, r.randint(0, 40), r.randint(16, 64)])
+            bits = [r.randint(0, 1) for _ in range(n)]
+            shape = r.random()
+            if shape < 0.2:                       # leading zeros: whole octets of them
+                z = r.randint(0, n)
+                bits[:z] = [0] * z
+            elif shape < 0.3:
+                bits = [0] * n
+            elif shape < 0.35:
+                bits = [1] * n
+            return ('bits', tuple(bits))
         if k == 'octs':
             return ('o', bytes(r.randint(0, 255) for _ in range(r.choice([0, 1, 2, 3, 4, 7, 8, r.randint(0, 20)]))))
         if k == 'null': return ('null',)
